@@ -1483,6 +1483,17 @@ class Interp:
                     fact = {"<": ("<", ca, cb), "<=": ("<=", ca, cb), ">": ("<", cb, ca), ">=": ("<=", cb, ca)}[o]
                     s = s.copy()
                     s.mon["rel"] = frozenset(s.mon.get("rel", frozenset()) | {fact})
+                if o in ("<", "<=", ">", ">=") and len(va) == 1 and len(vb) == 1:
+                    # what an ordering test against a constant tells about the *number* of a descriptor token on this branch
+                    x, y = next(iter(va)), next(iter(vb))
+                    ff = None
+                    if isinstance(x, tuple) and x[0] == "fd" and is_int(y):
+                        ff = (x, o, y)
+                    elif isinstance(y, tuple) and y[0] == "fd" and is_int(x):
+                        ff = (y, self.FLIP[o], x)
+                    if ff is not None:
+                        s = s.copy()
+                        s.mon["fdrange"] = frozenset(s.mon.get("fdrange", frozenset()) | {ff})
                 res.append([s])
             return res[0], res[1]
         # truthiness of a scalar
